@@ -22,6 +22,7 @@
 #include <bspline/Core.h>
 #include <bspline/interpolation/interpolation.h>
 
+#include <cstdint>
 #include <cstring>
 #include <limits>
 #include <stdexcept>
@@ -174,7 +175,9 @@ class Interp {
   }
   Snap<T> snap(const Grid<T> &g) const {
     Snap<T> s;
-    s.idx = {g.size()};
+    // which data block a grid holds is observable (getData()) and earlier references / iterators point into it: an
+    // operation on OTHER objects must not re-seat it
+    s.idx = {g.size(), (size_t)reinterpret_cast<uintptr_t>(g.getData().get())};
     s.vals = grid_points(g);
     auto d = g.getData();
     for (const auto &x : *d) s.vals.push_back(x);
@@ -182,7 +185,7 @@ class Interp {
   }
   Snap<T> snap(const Support<T> &x) const {
     Snap<T> s;
-    s.idx = {x.getStartIndex(), x.getEndIndex(), x.size()};
+    s.idx = {x.getStartIndex(), x.getEndIndex(), x.size(), (size_t)reinterpret_cast<uintptr_t>(x.getGrid().getData().get())};
     s.vals = grid_points(x.getGrid());
     return s;
   }
@@ -507,7 +510,10 @@ class Interp {
       }
       case G_EQUAL_DISTINCT: {
         if (!ng) return false;
-        Grid<T> c(grid_points(grids[gi(op.a)]));
+        std::vector<T> same_pts = grid_points(grids[gi(op.a)]);
+        // logically equal, not identical: with built-in floats a zero grid point gets the other sign
+        if constexpr (std::numeric_limits<T>::is_iec559) for (auto &v : same_pts) if (v == static_cast<T>(0)) v = -v;
+        Grid<T> c(same_pts);
         if (!(c == grids[gi(op.a)]) || (c != grids[gi(op.a)])) fail("C09", "equal grid in a distinct object compares unequal");
         store(grids, c, 0, 0);
         return true;
